@@ -364,7 +364,7 @@ func judgeBadPrecision(c *C07Case, cx *Ctx) *Violation {
 
 func init() {
 	defProp("C07",
-		"rapid-generated integer 'intents' n (C01's g1 family, extents 50 .. 2^28), precision p in {default, 2, 0, 1, -1, 3, 5, 7, 8, -4, -7, -8}, float inputs x = (n+f)/10^p with deterministic |f| <= 0.45 kept only when x*10^p lies within n+-0.49 (ties excluded by construction; in the two "Ties" rectangle operations every coordinate is n/2^(p+1), an exact grid point or an exact tie, all four bounds are ties, and the reference quantises bounds and vertices alike with the library's path quantiser); entry points BooleanOpPathsD, the five D wrappers, ClipperD.ExecuteOC (closed and open subjects), BooleanOpPolyTreeD, InflatePathsD (delta, arc tolerance, all join/end types), MinkowskiSumD/DiffD, RectClipPathsD/PathD, RectClipLinesPathsD/PathD, TrimCollinearD; oracle (differential): same path count/lengths/order as the 64-bit counterpart on the intents, every coordinate within 4 ulp of m/10^p; tree: identical node polygons and parents and Scale() = 10^p; precisions 9, -9, 17, +-100 must panic with ErrPrecisionRange in every D entry point that takes one; non-trivial = precision other than 2 or fractional inputs, and a non-empty result",
+		"rapid-generated integer 'intents' n (C01's g1 family, extents 50 .. 2^28), precision p in {default, 2, 0, 1, -1, 3, 5, 7, 8, -4, -7, -8}, float inputs x = (n+f)/10^p with deterministic |f| <= 0.45 kept only when x*10^p lies within n+-0.49 (ties excluded by construction; in the two tie-mode rectangle operations every coordinate is n/2^(p+1), an exact grid point or an exact tie, all four bounds are ties, and the reference quantises bounds and vertices alike with the library's path quantiser); entry points BooleanOpPathsD, the five D wrappers, ClipperD.ExecuteOC (closed and open subjects), BooleanOpPolyTreeD, InflatePathsD (delta, arc tolerance, all join/end types), MinkowskiSumD/DiffD, RectClipPathsD/PathD, RectClipLinesPathsD/PathD, TrimCollinearD; oracle (differential): same path count/lengths/order as the 64-bit counterpart on the intents, every coordinate within 4 ulp of m/10^p; tree: identical node polygons and parents and Scale() = 10^p; precisions 9, -9, 17, +-100 must panic with ErrPrecisionRange in every D entry point that takes one; non-trivial = precision other than 2 or fractional inputs, and a non-empty result",
 		[]string{"the 64-bit counterpart is trusted here (it is judged by C01..C11); this check only decides the scale-in / scale-out wrappers",
 			"delta*10^p and arcTol*10^p are formed with the same float expression the library documents"},
 		drawC07, judgeC07)
